@@ -208,7 +208,7 @@ CHECKS = {
    note="Trusted: Coq kernel; extraction; glue. std::filesystem canonicalisation, symlinks, '..' not modelled (generated trees are canonical; dangling symlinks and other non-module entries are added to a third of them and must be ignored). The implementation refuses import chains deeper than 1000 modules; the model has no bound.",
    technique="Coq proof (DFS invariant with fuel, parameterised recursion) + extraction-based correspondence on real directory trees"),
  "C20": dict(
-   level=("proof", "19 Coq theorems (axiom-free) over a model of parseSemVer/compareSemVer/hasLatest/the --update decision/parseChecksum/"
+   level=("proof", "20 Coq theorems (axiom-free) over a model of parseSemVer/compareSemVer/hasLatest/the --update decision/parseChecksum/"
           "checksumVerdict/the 72h notice throttle, for all strings, all checksums.txt contents and all invocation histories: a string is a version "
           "exactly when it is [v]MAJOR[.MINOR[.PATCH]][-suffix] (so a commit hash or '2.x' is never acted on), install/announce only if strictly "
           "newer, an archive is installed only after verification against the digest listed for exactly its name (the name of an entry is the whole rest of its line), notices are 72 h apart and "
